@@ -79,9 +79,9 @@ Proof. intros Hl Hsx Hsf Hxy. unfold np_interp.
         + unfold fl, nth_d. apply nondecr_nth_last; assumption.
       - discriminate. }
     lra. }
-  destruct (Rleb x x0) eqn:E1; destruct (Rleb y x0) eqn:E2;
-    [apply Rleb_true in E1, E2|apply Rleb_true in E1; apply Rleb_false in E2
-    |apply Rleb_false in E1; apply Rleb_true in E2|apply Rleb_false in E1, E2]; try lra.
+  destruct (Rltb x x0) eqn:E1; destruct (Rltb y x0) eqn:E2;
+    [apply Rltb_true in E1, E2|apply Rltb_true in E1; apply Rltb_false in E2
+    |apply Rltb_false in E1; apply Rltb_true in E2|apply Rltb_false in E1, E2]; try lra.
   - destruct (Rleb xl y); [exact Hf0l|apply Hin_lo; lra].
   - destruct (Rleb xl x) eqn:E3; destruct (Rleb xl y) eqn:E4;
       [|apply Rleb_true in E3; apply Rleb_false in E4; lra| |]; try lra.
